@@ -367,6 +367,13 @@ def m_iter_adapter(ctx):
 def m_take(ctx):
     it, _ = iter_arg(ctx)
     n = ctx.eng.as_lin(ctx.st, ctx.args[1])
+    c0 = it_get(it, "count") if it is not None else None
+    # min(count, n) is exact when one side is known to be the smaller
+    if n is not None and c0 is not None and isinstance(c0, Lin):
+        if ctx.eng.holds(ctx.st, ("le", n - c0), True):
+            return [ctx.ret(it_with(it, count=n, kind="take"))]
+        if ctx.eng.holds(ctx.st, ("le", c0 - n), True):
+            return [ctx.ret(it_with(it, count=c0, kind="take"))]
     f = Lin.sym(ctx.eng.new_sym("take", 0, ISIZE_MAX))
     if it is not None and it_get(it, "count") is not None:
         ctx.st.add(f - it_get(it, "count"))
